@@ -96,6 +96,15 @@ func recoverFile(info types.SegmentInfo, wf types.WritableFile, bufPool *sync.Po
 		return nil, err
 	}
 
+	// What we just recovered may only be in the OS page cache if the previous
+	// process died (without the machine going down) between writing a batch and
+	// fsyncing it. Readers are about to be served these entries, the WAL may
+	// record this segment as sealed in metaDB, and later appends rely on earlier
+	// batches being durable, so make sure they are before going any further.
+	if err := wf.Sync(); err != nil {
+		return nil, err
+	}
+
 	return w, nil
 }
 
